@@ -7,7 +7,7 @@ from ..ref_ws import TEXT, BINARY, CLOSE, PING, PONG
 
 EXT = scen.DEFLATE_HDR
 LENGTHS_Q = [0, 1, 2, 3, 4, 5, 6, 7, 8, 9, 123, 124, 125, 126, 127, 128, 129, 255, 256, 65534, 65535, 65536, 65537, 131072]
-LENGTHS_T = list(range(0, 300)) + [1000, 4095, 4096, 65533, 65534, 65535, 65536, 65537, 65538, 65539, 131071, 131072, 200000]
+LENGTHS_T = list(range(0, 1100)) + [4095, 4096, 16383, 16384, 32768] + list(range(65528, 65545)) + [131071, 131072, 200000, 1 << 20]
 KEYS = [b'\x00\x00\x00\x00', b'\xff\xff\xff\xff', b'\x01\x02\x03\x04', b'\x80\x7f\x00\xff']
 CODEPOINTS = [0x0, 0x41, 0x7F, 0x80, 0x7FF, 0x800, 0xFFFF, 0x10000, 0x10FFFF]
 
